@@ -152,6 +152,7 @@ class Ctx:
         self.path_lines = []
         self.spec_apps = []
         self.nodecide = 0
+        self.covers = []
         self.stats = {"feas_checks": 0, "feas_unknown": 0}
 
     # -- fresh names (deterministic per path prefix so that re-execution reproduces them)
@@ -201,6 +202,26 @@ class Ctx:
         if r == z3.unknown:
             self.stats["feas_unknown"] += 1
         return r != z3.unsat
+
+    def pinned_int(self, t):
+        """the integer the path condition pins `t` to, if any (decided on the arithmetic skeleton, which has FEWER
+        constraints than the path condition: a value forced there is forced on the path)"""
+        n0 = len(self.skel.side)
+        a = self.skel.tr(t)
+        for sd in self.skel.side[n0:]:
+            self.solver.add(sd)
+        if self.solver.check() != z3.sat:
+            return None
+        v = self.solver.model().eval(a, model_completion=True)
+        if not z3.is_int_value(v):
+            return None
+        self.solver.push()
+        try:
+            self.solver.add(a != v)
+            r = self.solver.check()
+        finally:
+            self.solver.pop()
+        return v.as_long() if r == z3.unsat else None
 
     def decide(self, options, label=""):
         """options: list of (key, cond_term_or_None). Returns chosen key. Explores all feasible."""
